@@ -10,7 +10,7 @@ LEVEL_TEXT = ("Static structural proof of necessary conditions: (R20.1) in Event
               "in the open-process table is given an end (popped-and-ended, or ended by the final sweep), duration "
               "events get their end before they are listed, and the context extraction runs only after the sweep. "
               "Interval arithmetic, boundary cases, equal-onset rows and Delay shifting are NOT decided.")
-LEVEL_EXTRA = "Added after the seeded evaluation: (R20.3) after Delay splitting, counts come from the split table; (R20.4) fresh index per Delay-shifted group; (R20.5) every access to the open-process table case-folds the definition name. (R20.6) the type/definition filter of unfold_context mutates neither its argument nor the manager's state. (R20.7) the context range of a process starts at the next time point, computed from the onsets. R20.3 also covers the consumers of the event manager (results sized by its time points, not by the input table)."
+LEVEL_EXTRA = "Added after the seeded evaluation: (R20.3) after Delay splitting, counts come from the split table; (R20.4) fresh index per Delay-shifted group; (R20.5) every access to the open-process table case-folds the definition name. (R20.6) the type/definition filter of unfold_context mutates neither its argument nor the manager's state. (R20.7) the context range of a process starts at the next time point, computed from the onsets. R20.3 also covers the consumers of the event manager (results sized by its time points, not by the input table). (R20.8) no join over a de-duplicated collection where row/process texts are combined."
 
 
 def _raising_guard(ctx, fi, word):
@@ -254,3 +254,36 @@ def run(ctx):
     uses_end = any(isinstance(x, ast.Attribute) and x.attr == "end_index" for x in ast.walk(context.node))
     if not uses_end:
         raise AnalysisError("R20.2 anchor: _extract_context no longer reads end_index")
+
+    # ---------------- R20.8: what is joined into a time point's text keeps every piece (equal pieces are different processes)
+    join_dedupe_rule(ctx, "R20.8", ("hed.tools.analysis.event_manager", "hed.models.df_util", "hed.tools.analysis.hed_tag_manager"), 3)
+
+
+def join_dedupe_rule(ctx, rule, modules, floor):
+    prog = ctx.prog
+    ctx.rule(rule, "no join over a de-duplicated collection where row/process texts are combined")
+    n_join = 0
+    for f in prog.functions.values():
+        if f.module.name not in modules:
+            continue
+        rdj = None
+        for c in walk_no_nested(f.node):
+            if not (isinstance(c, ast.Call) and isinstance(c.func, ast.Attribute) and c.func.attr == "join"
+                    and isinstance(c.func.value, ast.Constant) and c.args):
+                continue
+            n_join += 1
+            ctx.saw(f)
+            exprs = [c.args[0]]
+            if isinstance(c.args[0], ast.Name):
+                from sa.dataflow import ReachingDefs as _RD20
+                rdj = rdj or _RD20(f)
+                exprs += [d.value for d in (rdj.at(c, c.args[0].id) or []) if d.value is not None]
+            dedupe = [x for e in exprs for x in ast.walk(e) if isinstance(x, ast.Call) and (
+                (isinstance(x.func, ast.Attribute) and x.func.attr == "fromkeys") or
+                (isinstance(x.func, ast.Name) and x.func.id in ("set", "frozenset")) or
+                (isinstance(x.func, ast.Attribute) and x.func.attr in ("unique", "drop_duplicates")))]
+            ctx.check(not dedupe, rule, f.qualname, c, loc(f, c),
+                      "the pieces are de-duplicated before they are joined: two rows of one time point (or two ongoing processes) "
+                      "with the same text are different events, and one of them disappears from the time point / the context",
+                      desc="%s: every piece is joined" % f.short)
+    ctx.floor(rule, "joins of row/process texts", n_join, floor)
